@@ -196,6 +196,9 @@ def attrs_of(st, out):
     for a in (getattr(st, 'cids', None) or []):
         if isinstance(a, ComponentID):
             out.append(a)
+    ref = getattr(st, 'reference_data', None)
+    if ref is not None and hasattr(ref, 'pixel_component_ids'):
+        out.extend(ref.pixel_component_ids)     # a slice selection is carried to other datasets through pixel links
     return out
 
 
